@@ -44,18 +44,19 @@ Proof. vm_compute. reflexivity. Qed.
 
 (* ---- reading the routes back: the entity names of a route's yml block (Model/Entities.v, a transcription of
    openapi/utils/parse_utils.py:extract_entities compared with the code on generated texts each run).  For EVERY text made of
-   blank-separated words without blanks or backticks, some of them written between ``` fences: the entities are exactly the fenced
+   words without blanks or backticks, each followed by a whitespace character of any kind (a space, a line break, ...), some of them written between ``` fences: the entities are exactly the fenced
    words, in order -- whatever characters the names are made of (digits and underscores included).  The operation is about the last
    entity that is not "ServerError" (pick_entity). *)
 From CDD Require Entities EntitiesProofs.
-Theorem C16_entities_are_the_fenced_words : forall ts last_,
-  forallb EntitiesProofs.token_ok ts = true -> EntitiesProofs.token_ok last_ = true ->
-  Entities.extract_entities (concat (map (fun t => EntitiesProofs.render t ++ [SP]) ts) ++ EntitiesProofs.render last_)
-  = EntitiesProofs.entities_of (ts ++ [last_]).
+Theorem C16_entities_are_the_fenced_words : forall (ts : list EntitiesProofs.spaced) last_,
+  forallb EntitiesProofs.spaced_ok ts = true -> EntitiesProofs.token_ok last_ = true ->
+  Entities.extract_entities (concat (map EntitiesProofs.render_spaced ts) ++ EntitiesProofs.render last_)
+  = EntitiesProofs.entities_of (map fst ts ++ [last_]).
 Proof. exact EntitiesProofs.entities_are_the_fenced_words. Qed.
 Print Assumptions C16_entities_are_the_fenced_words.
 Example C16_entities_example :
-  Entities.extract_entities (s2l "responses: '200': description: A `Config` object. $ref: ```Config``` '400': $ref: ```ServerError```")
+  Entities.extract_entities (s2l "responses:" ++ [NL] ++ s2l "  '200':" ++ [NL] ++ s2l "    description: A `Config` object." ++ [NL] ++ s2l "    $ref: ```Config```" ++ [NL]
+                    ++ s2l "  '400':" ++ [NL] ++ s2l "    $ref: ```ServerError```")
   = [s2l "Config"; s2l "ServerError"]
   /\ Entities.pick_entity [s2l "Config"; s2l "ServerError"] = Some (s2l "Config")
   /\ Entities.pick_entity [s2l "ServerError"] = None.
